@@ -83,7 +83,7 @@ use crate::proto::{Case, Out};
 use crate::rng::Rng;
 use crate::simnet::{addr_of, now_ms, run_sim, Policy, SimNet, Verdict};
 
-pub const RULE: &str = "sys cases: one scenario on the simulated network under virtual time with a real device (InteractionModel with the reporter task, Responder, persisted subscriptions in a key-value store that survives restarts) serving 6 integer + 3 large attributes (chunked priming) and two real subscribers (subscribe through ImClient::subscribe_sender, reports recorded by a ReportDataHandler), all sessions established for real (operational resolve + CASE); scenario families: a change injected between the round trips of a chunked priming, a competing subscriber with another minimum interval, datagram loss / duplication / delay, session loss on the device, total blackout of a subscriber, restart (cold/warm) with persisted subscriptions incl. a change during the downtime, a subscriber that is gone for good after a restart, random mixes; non-trivial = a subscription was established, an attribute was changed after that and a reporter-originated report reached a subscriber";
+pub const RULE: &str = "sys cases: one scenario on the simulated network under virtual time with a real device (InteractionModel with the reporter task, Responder, persisted subscriptions in a key-value store that survives restarts) serving 6 integer + 3 large attributes (chunked priming) and two real subscribers (subscribe through ImClient::subscribe_sender, reports recorded by a ReportDataHandler), all sessions established for real (operational resolve + CASE); scenario families: a change injected between the round trips of a chunked priming, a competing subscriber with another minimum interval, datagram loss / duplication / delay, session loss on the device, total blackout of a subscriber, restart (cold/warm) with persisted subscriptions incl. a change during the downtime, a subscriber that is gone for good after a restart, buffer pressure (the device's pool of 10 IM buffers drained by 6-8 live subscriptions + hanging primings while a subscribed attribute changes), random mixes; non-trivial = a subscription was established, an attribute was changed after that and a reporter-originated report reached a subscriber";
 
 const N_SUBS: usize = 2;
 const DEV_NODE: u64 = 1;
@@ -93,7 +93,8 @@ const EP: u16 = 1;
 const CLUSTER_ID: u32 = 0xFFF1_FC30;
 const BALLAST: usize = 700;
 const EVENTS_BUF: usize = 2048;
-const MAX_SUBS: usize = 3;
+/// room for the buffer-pressure scenarios: 8 established subscriptions + one priming in progress
+const MAX_SUBS: usize = 9;
 /// attribute ids of the integer attributes; `8` is not part of the `l` selection
 pub const INT_ATTRS: [u32; 6] = [0, 1, 3, 5, 7, 8];
 const BALLAST_ATTRS: [u32; 3] = [2, 4, 6];
@@ -1249,14 +1250,15 @@ impl Gen<'_> {
     }
 }
 
-pub const FAMILIES: [&str; 12] = [
-    "primrace", "compete", "loss", "dupdelay", "sessloss", "outage", "blackout", "restart", "gone", "unselected", "persistrace", "mix",
+pub const FAMILIES: [&str; 13] = [
+    "primrace", "compete", "loss", "dupdelay", "sessloss", "outage", "blackout", "restart", "gone", "unselected", "persistrace", "pressure",
+    "mix",
 ];
 
 fn gen_scenario(family: &str, r: &mut Rng, thorough: bool) -> (String, Vec<String>) {
     let seed = r.below(1 << 32);
     let strict = r.chance(2, 3);
-    let gc = if r.chance(2, 3) { 1 } else { 0 };
+    let gc = if family == "pressure" || r.chance(2, 3) { 1 } else { 0 };
     let mut hdr = (0u64, 0u64, 0u64, 0u64);
     let mut g = Gen { r, ops: Vec::new(), next_val: 100, max_max: 40 };
     let max = *g.r.pick(&[40u64, 40, 45, 60]);
@@ -1451,6 +1453,45 @@ fn gen_scenario(family: &str, r: &mut Rng, thorough: bool) -> (String, Vec<Strin
             g.run_r(2000, 30_000);
             g.set_any();
             g.run_r(1000, 5000);
+        }
+        "pressure" => {
+            // The device's pool of 10 IM buffers is drained: every live subscription pins one buffer,
+            // every interaction in progress holds two (rx + tx). Wildcard subscriptions (they select
+            // attribute 8) of both subscribers, then primings of list subscriptions (they do not
+            // select attribute 8) whose first chunk stays unanswered: while those hang the pool is
+            // empty, and attribute 8 changes. The reporter cannot build a report for anybody. Whatever
+            // it does then, after the release and a quiescent period a subscription that is still
+            // alive must know the new value.
+            let held = if g.r.chance(1, 2) { 2u64 } else { 1 };
+            let per_sub = (10 - 2 * held) / 2; // 3 + 3 wildcard subscriptions and 2 held, or 4 + 4 and 1 held
+            let min = *g.r.pick(&[0u64, 0, 1]);
+            for who in 0..2u64 {
+                for _ in 0..per_sub {
+                    g.sub(who, min, max, true, "w", None);
+                }
+            }
+            g.run_r(7000, 10_000);
+            // (the device gives a priming up when its chunk stays unanswered for about 6 s - and a
+            // subscriber answering later than that waits for the next chunk in vain -, so the hold
+            // stays below that)
+            let hold = g.r.range(3000, 4500);
+            for who in 0..held {
+                g.sub(who, 0, max, true, "l", Some((0, hold)));
+            }
+            g.run_r(800, 1500);
+            g.set(8);
+            g.run_r(200, 700);
+            if g.r.chance(1, 2) {
+                // a change of another attribute as well; the last word on attribute 8 is said while
+                // the pool is empty
+                g.set(0);
+                g.set(8);
+                g.run_r(200, 500);
+            }
+            g.run(hold + 3000);
+            // the survivors are still served
+            g.set(1);
+            g.run_r(2000, 5000);
         }
         "gone" => {
             let s0 = g.sel();
